@@ -103,6 +103,7 @@ inductive ChainStep (s s' : State) : Prop where
   | begin (t : Int) (ht : s.time ≤ t) (h : beginBlock Facts.beginBlockSteps { s with time := t } = .ok s')
   | deliver (wall : Nat) (tx : Tx) (hs : s' = (deliverTx Facts.anteOrder wall s tx).1)
   | check (tx : Tx) (hs : s' = (checkTx Facts.anteOrder s tx).1)
+  | recheck (tx : Tx) (hs : s' = (recheckTx Facts.anteOrder s tx).1)
   | gov (wall : Nat) (m : Msg) (hs : s' = (govExec wall s m).1)
   | govAll (wall : Nat) (msgs : List Msg) (hs : s' = (govExecAll wall s msgs).1)
 
